@@ -312,9 +312,8 @@ def Fn.args : Fn → List String
   | .coalesce a b => [a, b]
   | .const _ => []
 
-/-- `kwargs_support(f)(**row)`: `TypeError` when a parameter is not among the columns.  (Inside `d(**kw)` the
-code also passes `key = <new column name>` as a default: a parameter NAMED `key` is therefore outside this
-model - the driver refuses it, TableDriver.lean `call`.) -/
+/-- `kwargs_support(f)(**row)`: `TypeError` when a parameter is not among the keywords offered (`row`: the
+columns; inside `d(**kw)` also `key`, see `keyDflt`) -/
 def Fn.eval (f : Fn) (row : String → Option Cell) : Except Err Cell :=
   match f with
   | .idcol a => match row a with | some x => .ok x | Option.none => .error .type
@@ -324,15 +323,27 @@ def Fn.eval (f : Fn) (row : String → Option Cell) : Except Err Cell :=
       | _, _ => .error .type
   | .const c => .ok c
 
+/-- the parameters a callable sees inside `d(**kw)`: the row's cells, and `key` (the name of the column being
+defined) where the row has no cell of that name -/
+def keyDflt (key : String) (row : String → Option Cell) : String → Option Cell :=
+  fun a => match row a with
+    | some x => some x
+    | Option.none => if a == "key" then some (.str key) else Option.none
+
 namespace Table
 
 /-- `d.apply(f)`: one value per row (line 670-672) -/
 def applyFn (t : Table) (f : Fn) : Except Err (List Cell) :=
   mapE (fun i => f.eval (t.cellAt i)) (List.range t.nrows)
 
-/-- `res[key] = res.apply(f)` -/
+/-- `res.apply(f, key = key)`: inside `d(**kw)` every callable is also offered the keyword `key = <name of the
+new column>` (`default_params`, overridden by the row's own cells: `_dict_in_place_update(default_params, row)`) -/
+def applyFnK (t : Table) (key : String) (f : Fn) : Except Err (List Cell) :=
+  mapE (fun i => f.eval (keyDflt key (t.cellAt i))) (List.range t.nrows)
+
+/-- `res[key] = res.apply(f, key = key)` (`Dict.__call__`, _dict.py:88-92) -/
 def setFn (t : Table) (kf : String × Fn) : Except Err Table :=
-  match t.applyFn kf.2 with
+  match t.applyFnK kf.1 kf.2 with
   | .error e => .error e
   | .ok vs => t.setitem kf.1 (.many vs)
 
